@@ -568,6 +568,14 @@ func (n *NSQD) DeleteExistingTopic(topicName string) error {
 
 	n.Lock()
 	delete(n.topicMap, topicName)
+	if !topic.ephemeral {
+		// the persist requested by topic.Delete() may have run while the
+		// topic was still registered, persist again now that it is gone
+		err := n.PersistMetadata()
+		if err != nil {
+			n.logf(LOG_ERROR, "failed to persist metadata - %s", err)
+		}
+	}
 	n.Unlock()
 
 	return nil
